@@ -170,8 +170,16 @@ def generate(ctx):
                 reject = [N2] if kind == "select_reject" else None
                 full = read_parquet(path)
 
+                source_kind = rng.choice(["path", "path", "file", "bytes"])
+
                 def run_s():
-                    back = read_parquet(path, columns=list(sel), reject_nesting=reject)
+                    # the same selection through a path, an open file or an in-memory buffer
+                    src = path if source_kind == "path" else (open(path, "rb") if source_kind == "file" else io.BytesIO(open(path, "rb").read()))
+                    try:
+                        back = read_parquet(src, columns=list(sel), reject_nesting=reject)
+                    finally:
+                        if source_kind == "file":
+                            src.close()
                     assert isinstance(back, NestedFrame)
                     return back
                 r = attempt(run_s)
@@ -237,6 +245,7 @@ def generate(ctx):
                     impl_repr = f"raised {r[1]}"
                 args["columns"] = sel
                 args["reject_nesting"] = reject
+                args["source"] = source_kind
             else:
                 # a file written by plain pyarrow
                 st = gen.struct_type(inp["schema"])
